@@ -28,6 +28,9 @@ func init() {
 var c20Bounds = []int64{5e6, 10e6, 25e6, 50e6, 100e6, 250e6, 500e6, 1e9, 2500e6, 5e9, 10e9}
 
 func runC20(idx int, rng *rand.Rand, tier string) []Case {
+	if idx%60 == 11 {
+		return c20CLI(idx, rng)
+	}
 	n := rng.Intn(40)
 	switch rng.Intn(8) {
 	case 0:
